@@ -4,8 +4,8 @@ import (
 	"fmt"
 	"net/url"
 	"reflect"
-	"sort"
 	"strings"
+	"sync"
 
 	"github.com/go-fed/activity/streams"
 	"github.com/go-fed/activity/streams/vocab"
@@ -88,11 +88,19 @@ func concrete(v reflect.Value) reflect.Value {
 	return v
 }
 
-// kindFlags lists the names K for which the element has a method Is<K>() bool
-// (IsIRI is reported as "IRI"), sorted.
-func kindFlags(elem reflect.Value) []string {
-	var out []string
+type flagInfo struct {
+	names []string
+	idx   []int
+}
+
+var flagCache sync.Map // reflect.Type -> *flagInfo
+
+func flagsOf(elem reflect.Value) *flagInfo {
 	t := elem.Type()
+	if c, ok := flagCache.Load(t); ok {
+		return c.(*flagInfo)
+	}
+	fi := &flagInfo{}
 	for i := 0; i < t.NumMethod(); i++ {
 		m := t.Method(i)
 		if !strings.HasPrefix(m.Name, "Is") {
@@ -102,21 +110,30 @@ func kindFlags(elem reflect.Value) []string {
 		if mt.NumIn() != 0 || mt.NumOut() != 1 || mt.Out(0).Kind() != reflect.Bool {
 			continue
 		}
-		out = append(out, strings.TrimPrefix(m.Name, "Is"))
+		fi.names = append(fi.names, strings.TrimPrefix(m.Name, "Is"))
+		fi.idx = append(fi.idx, i)
 	}
-	sort.Strings(out)
-	return out
+	flagCache.Store(t, fi)
+	return fi
+}
+
+// kindFlags lists the names K for which the element has a method Is<K>() bool
+// (IsIRI is reported as "IRI"), sorted (reflect lists methods sorted by name).
+func kindFlags(elem reflect.Value) []string {
+	return flagsOf(elem).names
 }
 
 // trueFlags lists the kinds whose Is<K>() currently returns true.
-func trueFlags(elem reflect.Value) []string {
-	var out []string
-	for _, k := range kindFlags(elem) {
-		o, ok, p := callM(elem, "Is"+k)
-		if ok && p == nil && o[0].Bool() {
-			out = append(out, k)
+func trueFlags(elem reflect.Value) (out []string) {
+	fi := flagsOf(elem)
+	func() {
+		defer func() { recover() }()
+		for j, i := range fi.idx {
+			if elem.Method(i).Call(nil)[0].Bool() {
+				out = append(out, fi.names[j])
+			}
 		}
-	}
+	}()
 	// An xsd:anyURI value is an IRI: properties ranged over anyURI keep both
 	// in one slot and report both flags. Treat the pair as one kind.
 	hasURI := false
